@@ -238,10 +238,34 @@ def budget(tier):
     return dict(examples=120000, wall=1500)
 
 
+@st.composite
+def late_fold_scenario(draw):
+    """Constructed stud hand: checked/called down to a chosen street, where
+    the player who opens (the best board) folds at once - legal in a cash
+    game - and the others play on: the next rounds must be opened by the best
+    *remaining* board."""
+    game = draw(st.sampled_from(['F7S', 'F7S8', 'FR']))
+    n = draw(st.integers(3, 7))
+    k = draw(st.sampled_from([4, 5, 6, 6]))       # street of the fold
+    nfold = draw(st.sampled_from([1, 1, 2]))
+    tape = [0] * (n * (k - 3)) + [90] * nfold
+    tape += draw(st.lists(st.sampled_from([0, 0, 0, 90, 5, 40]), max_size=30))
+    cfg = dict(
+        game=game, custom=None, n=n, mode='C', autos=2047, boards=1,
+        trim=True, antes=[1] * n, blinds=[0] * n, bring_in=1, sb=2, bb=4,
+        stacks=[200] * n, chip=draw(st.sampled_from(['int', 'frac'])),
+        rake=None, divmod='default',
+        deck_seed=draw(st.integers(0, 10 ** 6)), profile=0, strict=False,
+        unknown=False, rig=draw(st.sampled_from([None, 'fewranks'])),
+    )
+    return {'config': cfg, 'tape': tape}
+
+
 def strategy(tier):
     common = dict(unknown=False, tape_size=100, rake=False, divmods=False,
                   boards=(1,), chips=('int', 'int', 'frac'))
     return st.one_of(
+        late_fold_scenario(),
         gen.cases(games=('F7S', 'F7S8', 'FR'), rigs=('fewranks', None, 'low'),
                   profiles=(0, 5, 4), **common),
         gen.cases(games=('F7S', 'F7S8', 'FR'), rigs=('fewranks', None),
